@@ -8,7 +8,7 @@
 (* spec computes the represented integer from the layout and checks the    *)
 (* exact residue identity of every operation in BigNat arithmetic.         *)
 (***************************************************************************)
-EXTENDS Edwards, ZL, Recode, FieldLimbsBig, GroupFormulasBig, Json, TLC, IOUtils
+EXTENDS Edwards, ZL, Recode, FieldLimbsBig, GroupFormulasBig, ModmLimbsBig, Json, TLC, IOUtils
 
 Tr == ndJsonDeserialize(IOEnv.VERIF_TRACE)
 N  == Len(Tr)
@@ -103,6 +103,10 @@ ScalarChecks(e) ==
           [] f = "Add" -> << <<"(x + y) mod L, canonical", TRUE, Eq(Val(ly, e.out), AddL(Val(ly, e.a), Val(ly, e.b)))>>, canon(0) >>
           [] f = "Mul" -> << <<"(x * y) mod L, canonical", TRUE, Eq(Val(ly, e.out), MulL(Val(ly, e.a), Val(ly, e.b)))>>, canon(0) >>
           [] f = "Contract" -> << <<"serialisation round-trips", ToBytes(Val(ly, e.a), 32), e.bytes>> >>
+          [] f = "Barrett" ->
+               << <<"limbs differ from the limb-level transcription of barrettReduce (ModmLimbsBig)", MLBytes(MLBarrett(ly, MLLimbs(e.a), MLLimbs(e.b))), e.out, "note">>,
+                  <<"consistent operands (q1 = x >> 248, r1 = x mod 2^264): the result is x mod L, canonical", TRUE,
+                       ~e.consistent \/ (Eq(Val(ly, e.out), ModL(Add(ShiftLeft(ShiftRight(Val(ly, e.a), 16), 264), Val(ly, e.b)))) /\ Lt(Val(ly, e.out), L))>> >>
           [] f = "Reduce" -> << <<"one conditional subtraction: r mod L for r < 2L", TRUE, Eq(Val(ly, e.out), ModL(Val(ly, e.a)))>>, canon(0) >>
           [] f = "ContractWindow4" ->
                << <<"digits represent the integer", TRUE, DigitsRepresent(e.digits, 4, Val(ly, e.a))>>,
